@@ -12,6 +12,7 @@ use crate::{
     source::Source,
 };
 
+use super::serialization::checked_len;
 use byteorder::{LittleEndian, ReadBytesExt, WriteBytesExt};
 use rand::Rng;
 
@@ -346,14 +347,16 @@ impl<D: DataMut> ReaderFrom for VecZnx<D> {
         let len: usize = reader.read_u64::<LittleEndian>()? as usize;
 
         // Validate metadata consistency: n * cols * size * sizeof(i64) must match data length.
-        let expected_len: usize = new_n * new_cols * new_size * size_of::<i64>();
-        if expected_len != len {
-            return Err(std::io::Error::new(
-                std::io::ErrorKind::InvalidData,
-                format!(
-                    "VecZnx metadata inconsistent: n={new_n} * cols={new_cols} * size={new_size} * 8 = {expected_len} != data len={len}"
-                ),
-            ));
+        match checked_len(&[new_n, new_cols, new_size, size_of::<i64>()]) {
+            Some(expected_len) if expected_len == len => {}
+            expected_len => {
+                return Err(std::io::Error::new(
+                    std::io::ErrorKind::InvalidData,
+                    format!(
+                        "VecZnx metadata inconsistent: n={new_n} * cols={new_cols} * size={new_size} * 8 = {expected_len:?} != data len={len}"
+                    ),
+                ));
+            }
         }
 
         let buf: &mut [u8] = self.data.as_mut();
@@ -362,6 +365,21 @@ impl<D: DataMut> ReaderFrom for VecZnx<D> {
                 std::io::ErrorKind::InvalidData,
                 format!("VecZnx buffer too small: self.data.len()={} < read len={len}", buf.len()),
             ));
+        }
+
+        // The advertised limb capacity must cover the active limbs and fit the receiver's buffer,
+        // otherwise a later `set_size` within `max_size` would address memory past the buffer.
+        match checked_len(&[new_n, new_cols, new_max_size, size_of::<i64>()]) {
+            Some(capacity_len) if new_size <= new_max_size && capacity_len <= buf.len() => {}
+            _ => {
+                return Err(std::io::Error::new(
+                    std::io::ErrorKind::InvalidData,
+                    format!(
+                        "VecZnx capacity inconsistent: size={new_size} max_size={new_max_size} self.data.len()={}",
+                        buf.len()
+                    ),
+                ));
+            }
         }
         reader.read_exact(&mut buf[..len])?;
 
